@@ -43,6 +43,7 @@ package conn
 //@   nopanic
 //@   modifies *
 //@   ensures bounded: result1 == nil ==> result0 != nil && result0.len <= (len(b) - 8) * 8
+//@   ensures no_bits_beyond_length: result1 == nil ==> result0.clean
 
 //@ func handshakeFromP2PMessage
 //@   requires m != nil
